@@ -75,3 +75,7 @@ claim("C15", "bounded-exhaustive enumeration of DAG shapes x selectors x writer 
   "Every dag-cbor DAG up to the node bound (all upper-triangular adjacencies with link multiplicity 0/1/2, raw leaves) x 4 selectors x 6 writers x link-visit-once/budget/padding/index options is written; the output must be exactly the first-visit order of the loads logged during the writing pass, announced sizes and returned counts must equal bytes written, Dump must equal Write and callbacks must report true offsets.",
   "Hand-written dag-cbor encoder; errors outside the default traversal configuration are refusals that assert nothing.",
   "DESIGN.md 5/C15")
+claim("C09", "deviation-bounded exhaustive mutation of seed archives/indexes (every position x 7 byte values, every truncation, boundary-value products of every numeric field; thorough: all pairs in structural regions) x option sets x 26 parsing entry points, each run in a resource-limited child process",
+  "Every mutant of the bounded neighbourhood is fed to every parsing entry point under small and default limits; a panic, a fatal error (child death, attributed to the announced input and re-run in isolation), more reads/seeks than 64*(len+64), or allocation beyond header max + section max + 1 KiB/byte + 1 MiB is a violation; limits are checked to be enforced exactly (at-limit accepted, one over rejected with the too-large error).",
+  "Coverage statement over the 1-deviation (thorough: 2-deviation) neighbourhood of the seeds and field-boundary products, not all byte strings; allocation measured via runtime/metrics; one known finding (go-cid digest pre-allocation).",
+  "DESIGN.md 5/C09")
